@@ -714,6 +714,44 @@ func (prop) Gen(r *rand.Rand, tier string) []core.Case {
 			cs = append(cs, rawCase("random", []byte{0xFF, 0}[r.Intn(2)], b, []string{"asm", "compact", "reparse"}))
 		}
 	}
+	// headless chains: a variable whose head entry was invalidated (valid bit cleared in place, as the
+	// firmware does when it deletes a variable) while two or more chained data-only successors are still
+	// valid.  Every successor is then an orphan ("Invalid link"), not a value of anything — a parser that
+	// resolves a link through the dead head's stale next pointer revives them (seeded defect c10-6).
+	nHeadless := 25
+	if tier == "thorough" {
+		nHeadless = 400
+	}
+	for made, tries := 0, 0; made < nHeadless && tries < 40*nHeadless; tries++ {
+		rc := genWF(r, genOpts{maxVars: 4})
+		offs := make([]int, len(rc.Entries))
+		o := 0
+		for i := range rc.Entries {
+			offs[i] = o
+			o += rc.Entries[i].size()
+		}
+		head := -1
+		for i, j := range rc.tgt {
+			if rc.Entries[i].Kind == 'v' && j >= 0 && j < len(rc.tgt) && rc.tgt[j] >= 0 {
+				head = i
+				break
+			}
+		}
+		if head < 0 {
+			continue
+		}
+		// the same bytes with the valid bit cleared, as a dead entry of the recipe: the store stays
+		// well-formed (its successors become orphans), so every oracle of the property applies
+		hb := rc.Entries[head].ser(rc.Pol)
+		rc.Entries[head] = entry{Kind: 'x', Flags: int(hb[9] &^ 0x80), Next: int(hb[6]) | int(hb[7])<<8 | int(hb[8])<<16, Value: hb[10:]}
+		rc.tgt[head] = -1
+		if fl := rc.flags(); !fl.all() {
+			continue
+		}
+		// unreferenced GUIDs may remain in the table only if the generator's WF allows it: checked by flags()
+		cs = append(cs, recipeCase("semi:headless-chain", rc, genOps(r, rc), "standalone"))
+		made++
+	}
 	if tier == "thorough" {
 		for i := 0; i < 6; i++ {
 			cs = append(cs, genBig(r, i))
